@@ -70,6 +70,15 @@ CLAIMED = {
          "physt's own output; exact for dyadic factors, tolerance 1e-11 (1e-6 with float32 scalars) otherwise."),
    note=BASE_NOTE + "Float rounding for non-dyadic factors is bounded by the stated tolerance, not modelled; collection "
         "normalize_bins/normalize_all are observed through C12/C18's collection cases only."),
+ "C09": dict(
+   technique="Coq proofs over N-d arrays (pointwise marginal, total, Fubini: steps = once, T involutive) + extracted-model correspondence",
+   text=("Theorems for arrays of any dimension and shape: a projection cell is the sum of the parent cells that agree on the kept "
+         "axes; the total (and summed errors2) is preserved; projecting in steps equals projecting once onto the composed axes; "
+         "T.T = original. Every generated chain (projection by index / name / mixed order, T, accumulate, invalid axis lists) runs "
+         "on physt and on the extracted model; bins, names, contents, errors2 and totals are compared step by step, and for "
+         "histograms built from in-range rows the projection is compared with direct construction from the kept columns."),
+   note=BASE_NOTE + "Modelled, not verified: numpy sum(axis=tuple)/cumsum/T by their documented meaning; the special-class "
+        "projection map of transformed histograms is C15's subject."),
  "C10": dict(
    technique="Coq proof (induction over arbitrary frequency lists / N-d arrays) + extracted-model correspondence",
    text=("Theorems (all sizes, all dimensions, closed under the global context): the min_frequency loop always yields a gap-free "
